@@ -207,6 +207,17 @@ BOUNDARIES = [
                 'Long, both directions'),
 ]
 
+# ---- documented packets outside C07's core list that another property needs
+# (checked by that property only: C11's reactor handles the play-state
+# set-compression packet, which exists in 1.8 -- compression was negotiated
+# in the play state before it moved to login)
+EXTRA = {
+    'set compression (play)': dict(
+        cls=PKT + 'clientbound.play:SetCompressionPacket',
+        direction='clientbound', state='play',
+        rows=[dict(protocols=[47], id=0x46, layout=['varint'])]),
+}
+
 OUT = dict(
     _provenance=(
         'Ids and field layouts of the packets a client needs to connect, '
@@ -221,6 +232,7 @@ OUT = dict(
     constants={'STATE_STATUS': 1, 'STATE_PLAYING': 2},
     packets=P,
     boundaries=BOUNDARIES,
+    extra_packets=EXTRA,
     omitted=['Entries for the two 1.7.x protocol numbers (4, 5): the README '
              'does not list them as supported.'])
 
